@@ -93,6 +93,9 @@ def integrator_points(level="full", avx=False):
         for o in (2, 4, 6, 8, 10):
             for sc in (1e-16, 1e-12):
                 P.append(("janus", {"order": o, "scale_pos": sc, "scale_vel": sc}))
+            # the two grids are independent options: unequal spacings
+            P.append(("janus", {"order": o, "scale_pos": 4e-16, "scale_vel": 1e-16}))
+            P.append(("janus", {"order": o, "scale_pos": 1e-16, "scale_vel": 2e-16}))
         for eps in (1e-8, 1e-11):
             P.append(("bs", {"eps_rel": eps, "eps_abs": eps}))
         for L in ("mercury", "C4", "C5", "infinity"):
